@@ -91,7 +91,8 @@ Theorem C02_old_table_refuted :
 Proof.
   exists 7%Z, (of_bits 0x4000000000000000%N), (LFloat (of_int64 0)). split.
   - vm_compute. reflexivity.
-  - intros s. vm_compute. intros E. discriminate E.
+  - intros s. vm_compute. intros E. injection E as E.
+    apply (f_equal to_bits) in E. vm_compute in E. discriminate E.
 Qed.
 
 (* a condition that is a constant arithmetic expression: accepted by the
